@@ -98,8 +98,8 @@ def tlc_model(module, cfg, workers=8, timeout=1800, coverage=True, name=None, mu
     for m in re.finditer(r"^<(\w+) line \d+, col \d+ to line \d+, col \d+ of module (\w+)(?: \([\d ]+\))?>: (\d+):(\d+)", r["out"], re.M):
         cov[m.group(1)] = cov.get(m.group(1), 0) + int(m.group(4))
     # `\E r \in wire : Replay(ch, r)` ranges over a state-dependent set, so TLC reports it under "Next"
-    if "Next" in cov and "Replay" not in cov and must_cover and "Replay" in must_cover:
-        cov["Replay"] = cov.pop("Next")
+    if "ReplayOf" in cov:
+        cov["Replay"] = cov["ReplayOf"]
     r["coverage"] = cov
     if must_cover:
         missing = [a for a in must_cover if cov.get(a, 0) == 0]
